@@ -30,6 +30,8 @@ var repoDir = func() string {
 const contractFileName = "zz_verif_contracts.go"
 
 type Engine struct {
+	cfgMu     sync.Mutex
+	cfgCache  map[*ssa.Global]*ssa.Function
 	prog      *ssa.Program
 	pkgs      []*packages.Package
 	ssaPkgs   map[string]*ssa.Package
